@@ -121,7 +121,7 @@ func Property() runner.Property {
 				}
 				out = append(out, ctl.Scenario("C14", c, oracle(x)))
 			}
-			causes := map[string]string{"error": "injected API failure", "error+list": "injected API failure", "canceled": "context canceled", "nonlist": "Invalid type", "status": "is not a list", "nonobjects": "Invalid type", "noaccessor": "Invalid type"}
+			causes := map[string]string{"error": "injected API failure", "error+list": "injected API failure", "canceled": "context canceled", "nonlist": "Invalid type", "status": "is not a list", "nonobjects": "Invalid type", "nilitem": "Invalid type", "noaccessor": "Invalid type"}
 			for _, k := range ks {
 				for kind, cause := range causes {
 					for tn, tr := range trees {
